@@ -1,7 +1,9 @@
 """C05: exit status is reported truthfully and decides return vs. raise."""
 import io
 import itertools
+import locale
 import os
+import shutil
 import subprocess
 import sys
 
@@ -11,7 +13,10 @@ from ..core import Prop
 # signals whose default action terminates the process (Linux); 9 cannot be caught
 TERM_SIGNALS = [1, 2, 3, 4, 5, 6, 7, 8, 9, 10, 11, 12, 13, 14, 15, 16, 24, 25, 26, 27, 29, 30, 31] + \
     list(range(34, 65))
-HIDES = [None, "both", "out"]
+HIDES = [None, False, "out", "stdout", "err", "stderr", "both", True]      # all eight legal values
+CORE_SIGNALS = [3, 4, 6, 7, 8, 11, 24, 25, 31]      # default action: terminate and dump core
+STDIN_TEXT = "abcdefghijkl\n"
+STDINS = ["closed", "head", "unread"]
 CODES = [0, 1, 2, 127, 255, -9, -15]
 STREAM = ["ok", "other", "watcher", "rna"]      # rna = ResponseNotAccepted (a WatcherError)
 VIAS = ["runner", "ctx_run", "ctx_sudo"]
@@ -114,7 +119,11 @@ class C05(Prop):
             "worker reads raise OhNoz / WatcherError, with scripted returncode, timed_out, timeout, warn, hide, "
             "async -- the full truth table in thorough; (program) Program.run in-process for success, parse "
             "error, UnexpectedExit (raised and via a real c.run), Exit(code/message), KeyboardInterrupt and "
-            "foreign exceptions.  non-trivial = anything but a plain zero exit; distinct by the whole case")
+            "foreign exceptions; (stdin) real children that close stdin at once / read one byte / never read while "
+            "run() still feeds an in_stream; (core) real pty children dumping core; (decode) Local.returncode under "
+            "a pty driven with the wait status of every exit code and of every signal with and without the core "
+            "flag.  A returned or carried result must be complete: command, pty, stdout, stderr, encoding, hide, "
+            "shell, env as run.  non-trivial = anything but a plain zero exit; distinct by the whole case")
     trusted_base = [
         "Coq 8.16.1 kernel + vm_compute (shard evaluation)",
         "hand-written model coq/Model/ExitModel.v tied to invoke/runners.py, exceptions.py, program.py by "
@@ -127,8 +136,10 @@ class C05(Prop):
     ]
     assumptions = [
         "stopped/continued children (WIFSTOPPED) are out of scope: the command has finished",
-        "core dumps are disabled in the harness (RLIMIT_CORE = 0), so the core flag is exercised only in the theorem",
-        "in_stream=False in every run (stdin untouched)",
+        "core dumps are disabled (soft RLIMIT_CORE = 0) except in the dedicated core cases, which raise the limit "
+        "inside the child, in a scratch directory; whether the kernel then sets the core flag depends on the host, "
+        "so the flag is ALSO driven deterministically through Local.returncode (decode cases)",
+        "in_stream=False except in the stdin cases (in_stream=StringIO, child closes / barely reads / ignores stdin)",
     ]
     not_modelled = [
         "how output is captured (C02), the wait loop / thread joins themselves (C08), when the timer fires (C14)",
@@ -139,17 +150,32 @@ class C05(Prop):
     def setup(self, tier, seed):
         import resource
         try:
-            resource.setrlimit(resource.RLIMIT_CORE, (0, 0))
+            hard = resource.getrlimit(resource.RLIMIT_CORE)[1]
+            resource.setrlimit(resource.RLIMIT_CORE, (0, hard))      # soft only: the core cases raise it again
         except Exception:  # noqa
             pass
+        self.scratch = "/tmp/c05v-%d" % os.getpid()
+        shutil.rmtree(self.scratch, ignore_errors=True)
+        os.makedirs(self.scratch)
+
+    def teardown(self):
+        shutil.rmtree(getattr(self, "scratch", "/tmp/c05v-none"), ignore_errors=True)
 
     # -------------------------------------------------------------------- cases
     @staticmethod
-    def _real(how, n, pty, warn, hide=None, asyn=False, nofileno=False):
+    def _real(how, n, pty, warn, hide=None, asyn=False, nofileno=False, stdin=None, core=False):
         c = {"kind": "real", "how": how, "n": n, "pty": pty, "warn": warn, "hide": hide, "async": asyn}
         if nofileno:
             c["nofileno"] = True        # sys.stdin without fileno(): pty=True falls back to no pty
+        if stdin:
+            c["stdin"] = stdin          # in_stream=StringIO(...); the child closes / reads 1 byte of / ignores stdin
+        if core:
+            c["core"] = True            # the child raises its core limit first (scratch cwd)
         return c
+
+    @staticmethod
+    def _decode(how, n, core=False):
+        return {"kind": "decode", "how": how, "n": n, "core": core}
 
     @staticmethod
     def _scripted(out, err, timeout, timed_out, code, warn, hide=None, asyn=False, via="runner",
@@ -184,6 +210,23 @@ class C05(Prop):
                 yield self._real("exit", code, True, warn, rng.choice(HIDES), asy(), nofileno=True)
         for sig in (9, 15):
             yield self._real("signal", sig, True, True, None, False, nofileno=True)
+        # the child ends without consuming the input run() feeds it: the exit status still decides
+        for code in ((0, 3) if not thorough else (0, 1, 3, 255)):
+            for pty in (False, True):
+                for warn in (False, True):
+                    for mode in STDINS:
+                        yield self._real("exit", code, pty, warn, rng.choice(HIDES),
+                                         asy() if thorough else False, stdin=mode)
+        # real pty / plain children that dump core
+        for sig in ((6, 8, 11) if not thorough else CORE_SIGNALS):
+            for pty in (True, False):
+                yield self._real("signal", sig, pty, rng.random() < 0.5, rng.choice(HIDES), False, core=True)
+        # Local.returncode under a pty, every wait status the OS contract allows
+        for code in range(256):
+            yield self._decode("exit", code)
+        for sig in range(1, 127):
+            for core in (False, True):
+                yield self._decode("signal", sig, core)
         # Program.run
         for ev in PROGRAM_EVENTS:
             yield {"kind": "program", "event": ev}
@@ -220,6 +263,11 @@ class C05(Prop):
             yield self._real("exit", code, True, True, None, False, nofileno=True)
         for pty in (False, True):
             yield self._real("signal", 15, pty, True)
+            for mode in STDINS:
+                yield self._real("exit", 0, pty, False, None, False, stdin=mode)
+                yield self._real("exit", 3, pty, True, None, False, stdin=mode)
+        for sig in range(1, 65):
+            yield self._decode("signal", sig, True)
 
     # --------------------------------------------------------- implementation
     def run_impl(self, case):
@@ -228,20 +276,36 @@ class C05(Prop):
     def _run_real(self, case):
         from invoke import Context
         from invoke.runners import Local
+        if not hasattr(self, "scratch"):
+            self.setup("quick", 0)
         runner = Local(Context())
+        say = "printf c05out; printf c05err >&2; "
         if case["how"] == "exit":
-            cmd = "exit %d" % case["n"]
+            mode = case.get("stdin")
+            pre = {"closed": "exec 0<&-; sleep 0.15; ", "head": "head -c1 >/dev/null; ", "unread": "",
+                   None: ""}[mode]
+            cmd = "%s%sexit %d" % (say, pre, case["n"])
         else:
-            cmd = ("exec %s -c \"import os, signal\ntry:\n    signal.signal(%d, signal.SIG_DFL)\n"
+            pre = "ulimit -c unlimited; cd %s; " % self.scratch if case.get("core") else ""
+            cmd = ("%s%sexec %s -c \"import os, signal\ntry:\n    signal.signal(%d, signal.SIG_DFL)\n"
                    "except Exception:\n    pass\nos.kill(os.getpid(), %d)\nimport time\ntime.sleep(5)\"") % (
-                sys.executable, case["n"], case["n"])
-        kw = dict(pty=case["pty"], warn=case["warn"], hide=case["hide"], in_stream=False,
-                  out_stream=io.StringIO(), err_stream=io.StringIO())
+                say, pre, sys.executable, case["n"], case["n"])
+        out_s, err_s = io.StringIO(), io.StringIO()
+        in_stream = io.StringIO(STDIN_TEXT) if case.get("stdin") else False
+        kw = dict(pty=case["pty"], warn=case["warn"], hide=case["hide"], in_stream=in_stream,
+                  out_stream=out_s, err_stream=err_s)
 
         eff_pty = case["pty"] and not case.get("nofileno")
 
         def complete(res):
-            return res.pty == eff_pty and res.command == cmd
+            # the result returned or carried is the complete description of THIS run
+            if eff_pty:
+                text_ok = "c05out" in res.stdout and "c05err" in res.stdout and res.stderr == ""
+            else:
+                text_ok = res.stdout == "c05out" and res.stderr == "c05err"
+            return res.pty == eff_pty and res.command == cmd and text_ok and \
+                res.encoding == locale.getpreferredencoding(False) and tuple(res.hide) == () and \
+                res.shell == "/bin/bash" and res.env == dict(os.environ)
 
         def thunk():
             if case["async"]:
@@ -255,8 +319,29 @@ class C05(Prop):
             out = observe(thunk, complete)
         finally:
             sys.stdin, sys.stderr = saved_stdin, saved_stderr
+            if case.get("core"):
+                for fn in os.listdir(self.scratch):
+                    try:
+                        os.remove(os.path.join(self.scratch, fn))
+                    except OSError:
+                        pass
         raw = getattr(runner, "status", None) if eff_pty else None
         return {"outcome": out, "raw": raw, "eff_pty": eff_pty}
+
+    def _run_decode(self, case):
+        """Local.returncode under a pty, on the wait status the OS contract gives this ending"""
+        from invoke import Context
+        from invoke.runners import Local
+        raw = (case["n"] << 8) if case["how"] == "exit" else (case["n"] | (0x80 if case["core"] else 0))
+        runner = Local(Context())
+        runner.using_pty = True
+        runner.status = raw
+        try:
+            rc = runner.returncode()
+            rc = rc if rc is None or (isinstance(rc, int) and not isinstance(rc, bool)) else "bad"
+        except Exception as e:  # noqa
+            rc = "exc:" + type(e).__name__
+        return {"raw": raw, "rc": rc}
 
     def _run_scripted(self, case):
         from invoke import Context
@@ -327,7 +412,8 @@ class C05(Prop):
 
         def complete(res):
             cmd_ok = res.command.startswith("sudo -S -p ") if via == "ctx_sudo" else res.command == "cmd"
-            return res.stdout == want_out and res.stderr == want_err and cmd_ok
+            return res.stdout == want_out and res.stderr == want_err and cmd_ok and res.pty is False and \
+                res.encoding == locale.getpreferredencoding(False) and tuple(res.hide) == ()
 
         def start(**extra):
             if via == "runner":
@@ -432,6 +518,11 @@ class C05(Prop):
     # ------------------------------------------------------------------ terms
     def to_coq(self, case, obs):
         k = case["kind"]
+        if k == "decode":
+            e = "(Exited %s)" % ct.z(case["n"]) if case["how"] == "exit" else "(Killed %s)" % ct.z(case["n"])
+            rc = obs["rc"]
+            return "(CDecode %s %s %s %s)" % (e, ct.b(case["core"]), ct.z(obs["raw"]),
+                                              "DBad" if isinstance(rc, str) else "(DCode %s)" % coq_optz(rc))
         if k == "real":
             e = "(Exited %s)" % ct.z(case["n"]) if case["how"] == "exit" else "(Killed %s)" % ct.z(case["n"])
             return "(CReal %s %s %s %s %s)" % (e, ct.b(case["pty"] and not case.get("nofileno")), ct.b(case["warn"]),
@@ -475,8 +566,10 @@ class C05(Prop):
     # -------------------------------------------------------------- reporting
     def nontrivial(self, case, obs):
         k = case["kind"]
+        if k == "decode":
+            return True
         if k == "real":
-            return not (case["how"] == "exit" and case["n"] == 0)
+            return not (case["how"] == "exit" and case["n"] == 0) or bool(case.get("stdin"))
         if k == "scripted":
             return case["code"] != 0 or case["out"] != "ok" or case["err"] != "ok" or \
                 (case["timed_out"] and case["timeout"] is not None)
@@ -484,6 +577,8 @@ class C05(Prop):
 
     def classify(self, case, obs):
         k = case["kind"]
+        if k == "decode":
+            return "decode:%s:core=%s" % (case["how"], case["core"])
         if k == "program":
             o = obs["prog"]
             return "program:%s:%s" % (case["event"]["ev"], "returns" if "returns" in o else
@@ -491,12 +586,15 @@ class C05(Prop):
         o = obs["outcome"]
         what = "return" if "return" in o else o.get("raise") or ("other:" + o["other"])
         if k == "real":
-            return "real:%s:pty=%s:%s" % (case["how"], case["pty"], what)
+            extra = (":stdin=" + case["stdin"]) if case.get("stdin") else ""
+            if case.get("core"):
+                extra += ":coreflag=%s" % bool(obs.get("raw") and obs["raw"] & 0x80)
+            return "real:%s:pty=%s:%s%s" % (case["how"], case["pty"], what, extra)
         return "scripted:%s%s" % (what, ":async" if case["async"] else "")
 
     def shrink_candidates(self, case):
         k = case["kind"]
-        if k == "program":
+        if k in ("program", "decode"):
             return
         if case.get("async"):
             yield dict(case, **{"async": False})
